@@ -72,6 +72,7 @@ COMMUNITY_HALF_MAX = 0xFFFF  # each half of a community written as <n>:<n> is tw
 LARGE_COMMUNITY_PART_MAX = 0xFFFFFFFF  # each part of a large community is four octets (RFC 8092)
 PATH_INFORMATION_MAX = 0xFFFFFFFF  # the path identifier is four octets (RFC 7911)
 ATTRIBUTE_OCTET_MAX = 0xFF  # attribute flags and attribute type code are one octet each (RFC 4271 4.3)
+EXTENDED_COMMUNITY_HEX_LENGTH = 18  # 0x followed by the sixteen hexadecimal digits of the eight octets (RFC 4360)
 
 
 def prefix(tokeniser: 'Tokeniser') -> IPRange:
@@ -567,9 +568,9 @@ def _encode(command: str, components: list[int], parts: list[str]) -> tuple[byte
 
 
 def _extended_community_hex(value: str) -> ExtendedCommunity:
-    # we could raise if the length is not 8 bytes (16 chars)
-    if len(value) % 2:
-        raise ValueError('invalid extended community {}'.format(value))
+    # an extended community is eight octets
+    if len(value) != EXTENDED_COMMUNITY_HEX_LENGTH:
+        raise ValueError('invalid extended community {}\n  Expecting 0x and 16 hexadecimal digits'.format(value))
     raw = b''.join(bytes([int(value[_ : _ + 2], 16)]) for _ in range(2, len(value), 2))
     return cast(ExtendedCommunity, ExtendedCommunity.unpack_attribute(raw, None))
 
